@@ -9,7 +9,8 @@ def findings():
     out = ['| id | property | disposition | what failed |', '|----|----------|-------------|-------------|']
     for f in sorted(d, key=lambda f: (f['status'] != 'fixed', f['property'], f['id'])):
         disp = ('fixed in `%s`' % f['commit']) if f['status'] == 'fixed' else '**known** (recorded)'
-        out.append('| %s | %s | %s | %s |' % (f['id'], f['property'], disp, f['what'].replace('|', '\\|')))
+        what = f['what'] + ((' — *not repaired because:* ' + f['why_not_repaired']) if f.get('why_not_repaired') else '')
+        out.append('| %s | %s | %s | %s |' % (f['id'], f['property'], disp, what.replace('|', '\\|')))
     nfix = sum(1 for f in d if f['status'] == 'fixed')
     return '\n'.join(out), nfix, len(d) - nfix
 
